@@ -28,6 +28,7 @@ theorem inv1_init (db : Db C R D) : Inv1 (init db : S C R W D) := by
 def Event.isCode : Event R W D → Bool
   | .call _ c => c.isCode
   | .step _ => true
+  | .spur _ _ => true
 
 /-- effects of a micro-step that is not a lock operation leave the committed state alone unless the thread
 holds the write guard -/
@@ -92,7 +93,7 @@ theorem frame_same {t : Tid} {s s' : S C R W D} (h1 : s'.m = s.m) (h2 : s'.wbit 
 
 /-- micro-steps whose whole effect is `eff` -/
 def Instr.isEff : Instr R W D → Bool
-  | .aRead _ | .aReadUnlock _ | .aWrite1 | .aWrite2 | .aTryWrite | .aWriteUnlock | .mLock | .mUnlock
+  | .aRead _ | .aReadUnlock _ | .aWrite1 | .aWrite2 | .aTryWrite | .aWriteUnlock _ | .mLock | .mUnlock
   | .sessRoot _ | .ret _ => false
   | _ => true
 
@@ -102,8 +103,15 @@ theorem exec_isEff (s : S C R W D) (t : Tid) (i : Instr R W D) (rest : List (Ins
       match eff ops i (s.thr t).regs s.db with
       | .cont rg db =>
         ({ s with db := db, thr := upd s.thr t { (s.thr t) with regs := rg, prog := rest } }, .ran)
-      | .stop r db => (abort { s with db := db } t r, .finished r) := by
+      | .stop r db =>
+        if s.wbit == some t && s.wown then
+          ({ s with db := db, thr := upd s.thr t { (s.thr t) with prog := unwind (s.m == some t) r } }, .ran)
+        else (abort { s with db := db } t r, .finished r) := by
   cases i <;> simp [Instr.isEff] at hi <;> simp only [exec] <;> split <;> simp_all [upd]
+
+/-- the unwinding path obeys the lock discipline -/
+theorem wf_unwind (hm : Bool) (r : Res) : wf hm .own (unwind hm r : List (Instr R W D)) = true := by
+  cases hm <;> simp [unwind, wf]
 
 theorem wf_tail_of_isEff (i : Instr R W D) (rest : List (Instr R W D)) (hm : Bool) (ws : WS)
     (hi : i.isEff = true) (h : wf hm ws (i :: rest) = true) : wf hm ws rest = true := by
@@ -176,8 +184,22 @@ theorem inv1_eff (s : S C R W D) (t : Tid) (i : Instr R W D) (rest : List (Instr
     · exact typed_others hfr h u hu
   | stop r db =>
     simp only
-    apply inv1_abort
-    exact ⟨h.typed, h.wown_bit, h.excl, hdb db (Or.inr ⟨r, he⟩)⟩
+    split
+    · rename_i hown
+      simp only [Bool.and_eq_true, beq_iff_eq] at hown
+      have hws : wsOf s t = .own := (wsOf_own_iff s t).2 hown
+      have hfr : Frame t s { s with db := db, thr := upd s.thr t { (s.thr t) with prog := unwind (s.m == some t) r } } :=
+        frame_same rfl rfl rfl (fun u hu => by simp [upd_other _ _ _ _ hu])
+      refine ⟨?_, h.wown_bit, h.excl, hdb db (Or.inr ⟨r, he⟩)⟩
+      intro u
+      by_cases hu : u = t
+      · subst hu
+        have : wsOf { s with db := db, thr := upd s.thr u { (s.thr u) with prog := unwind (s.m == some u) r } } u = .own := by
+          simpa [wsOf] using hws
+        rw [this]; simp only [upd_same]; exact wf_unwind _ r
+      · exact typed_others hfr h u hu
+    · apply inv1_abort
+      exact ⟨h.typed, h.wown_bit, h.excl, hdb db (Or.inr ⟨r, he⟩)⟩
 
 end Nomt.Locks2
 
@@ -191,7 +213,7 @@ theorem wf_not_bit (hm : Bool) (ws : WS) (i : Instr R W D) (rest : List (Instr R
       | .aWrite1 => !hm && ws == .pre && wf false .bit rest
       | .aWrite2 => false
       | .aTryWrite => !hm && ws == .pre && wf false .own rest
-      | .aWriteUnlock => !hm && ws == .own && wf false .none rest
+      | .aWriteUnlock _ => !hm && ws == .own && wf false .none rest
       | .mLock => !hm && wf true ws rest
       | .mUnlock => hm && wf false ws rest
       | .sessRoot _ => hm && ws == .none && wf hm ws rest
@@ -332,7 +354,7 @@ theorem inv1_exec (s : S C R W D) (t : Tid) (i : Instr R W D) (rest : List (Inst
       · intro _; simp
       · intro _; exact hrd'
       · intro x hx; simp [hrd'] at hx
-  | aWriteUnlock =>
+  | aWriteUnlock rv =>
     simp only [exec]
     by_cases hws : wsOf s t = .bit
     · rw [hws] at ht; simp [wf] at ht
@@ -480,6 +502,13 @@ theorem inv1_next (s : S C R W D) (e : Event R W D) (he : e.isCode = true) (h : 
     · exact h
     · rename_i i rest hp
       exact inv1_exec ops s t i rest h hp
+  | spur t u =>
+    simp only [next]
+    split
+    · split
+      · exact inv1_abort s t .busy h
+      · exact h
+    · exact h
 
 theorem inv1_run (evs : List (Event R W D)) (s : S C R W D) (he : ∀ e ∈ evs, e.isCode = true) (h : Inv1 s) :
     Inv1 (run ops s evs) := by
